@@ -10,7 +10,7 @@
 //! braid result buffer (> 256 entries) and the convergence map (> 3*256 live entries); a counting
 //! `Spill` reports how many cases really spilled.
 
-use std::collections::{BTreeMap, BTreeSet};
+use std::collections::BTreeMap;
 
 use aranya_runtime::{ClientError, CmdId, Prior};
 use vh::{fnv, gk::*, gkb::*, Args, Recorder, Rng};
@@ -79,7 +79,7 @@ fn check_log(rec: &mut Recorder, lg: &LightGraph, heads: &[CmdId], rows: &[FactR
 fn check_braid(rec: &mut Recorder, lg: &LightGraph, heads: &[CmdId], evs: &[AuditEv], what: &str, label: &str, ask_model: bool) {
     let calls = braid_calls(evs);
     let flags = braid_merge_flags(evs);
-    if std::env::var("VH_DEBUG").is_ok() && heads.len() != 2 || calls.len() > 100 {
+    if std::env::var("VH_DEBUG").is_ok() && calls.len() > 100 {
         eprintln!("{label}: {what}: heads {} calls {}", heads.len(), calls.len());
     }
     if ask_model {
@@ -186,8 +186,11 @@ fn run_case(rec: &mut Recorder, sched: &Schedule, o: &Opts) {
         spilled.conv_reads += sp.conv_reads;
         let heads = r.heads();
         match cres {
-            Ok(_) => {
-                if heads.len() >= 2 {
+            Ok(changed) => {
+                if !changed {
+                    rec.count("empty_commits");
+                }
+                if changed && heads.len() >= 2 {
                     multi += 1;
                     check_braid(rec, &lg, &heads, &evs, "commit", label, true);
                 } else if !braid_calls(&evs).is_empty() {
@@ -306,7 +309,7 @@ fn main() {
             rec.sample(cmds.iter().map(cmd_line).collect::<Vec<_>>().join(" | "));
         }
         let o = Opts { merge_sample: 1, label: format!("c02#{case}") };
-        let mb = if std::env::var("VH_OLDRNG").is_ok() { 6 } else { *rng.pick(&[6, 6, 6, 30]) };
+        let mb = *rng.pick(&[6, 6, 6, 30]);
         let sched = make_schedule(&mut rng, &cmds, per_cmd, mb, false);
         guarded(&mut rec, &sched, &o, case);
         case += 1;
@@ -315,8 +318,8 @@ fn main() {
     // (w ladders, k diamonds each, side chain) ; chains
     let mut shapes: Vec<(&str, Dag)> = vec![];
     // quick tier: one braid result spill (region > 256) is on the measured path
-    shapes.push(("ladder-1x100", ladders_dag(&mut rng, 1, 100, 2, 3, 10, 7)));
-    shapes.push(("chains-150+160", chains_dag(&mut rng, 3, &[150, 160], 5)));
+    shapes.push(("ladder-1x140", ladders_dag(&mut rng, 1, 140, 2, 3, 10, 7)));
+    shapes.push(("chains-290+300", chains_dag(&mut rng, 3, &[290, 300], 5)));
     if args.thorough() || args.search {
         shapes.push(("chains-300+330+20", chains_dag(&mut rng, 5, &[300, 330, 20], 9)));
         shapes.push(("ladder-1x300", ladders_dag(&mut rng, 1, 300, 2, 4, 15, 11)));
@@ -345,6 +348,5 @@ fn main() {
         guarded(&mut rec, &sched, &o, case);
         case += 1;
     }
-    let _ = BTreeSet::<u8>::new();
     rec.finish(args.seed, &args.tier);
 }
